@@ -709,6 +709,17 @@ class LockAnalysis:
                 self._call_returning_carrier(st, state, pos)
             elif sk in ("CallExpr", "CXXOperatorCallExpr"):
                 self._call_returning_carrier(st, state, pos)
+                if sk == "CallExpr" and callee_fq(st) == "std::lock":
+                    # std::lock(l1, l2, ...) on lock objects (deferred unique_locks): all of them are owned afterwards
+                    for a in st["args"]:
+                        ae = f.s(a)
+                        if ae is not None and is_lock_carrier(ae.get("t", "")):
+                            key = self.key_of_expr(ae)
+                            v = state.get(key)
+                            if v is not None:
+                                nv = LockVal(v.mutex, v.mode, HELD)
+                                state[key] = nv
+                                self.acquire_events.append((pos, key, nv, True, st))
                 if sk == "CXXOperatorCallExpr" and st.get("op") == "=" and st["args"]:
                     lhs = f.s(st["args"][0])
                     if lhs is not None and is_lock_carrier(lhs.get("t", "")):
